@@ -5,8 +5,10 @@ bounded universe (Decl = the statement, Gen = ChooseTrunk;AddBranch^(k-1), Enc =
 and that solve()/the improvement loop are sound, complete and end on an optimum; it then emits the cases:
 one per (grid, k) and one per (grid, occupancy, k) with the optimum cost.
 
-Every case runs on the real rect.solve (each call in a fresh process: pseudobool keeps a process-wide diagram
-store) under the float embeddings of harness.lattice.  rect.Carrier() cannot be constructed on Linux (its
+Every case runs on the real rect.solve under the float embeddings of harness.lattice.  Calls are made one per
+fresh process (pseudobool keeps a process-wide diagram store) and, for half of the loops across the sat/unsat boundary,
+all in ONE process, the way rect.main() runs its improvement loop: the specification has no process state, so a later
+call is judged exactly as a first call.  rect.Carrier() cannot be constructed on Linux (its
 GreedyManager loads a Windows DLL), and solve/enforce_bb/definecoords/area only read attributes, so the carrier is a
 types.SimpleNamespace with the same fields, filled by the real rect.definecoords.  The SATManager solve() builds
 is captured (harness-side subclass bound to the module-level name) and ALL models of its clauses, projected on
@@ -44,7 +46,7 @@ VACUOUS = -10 ** 8          # a bound every shape meets: the cost constraint is 
 RATIO = 2.0                 # minimum-error mode (rect.py --minerr, the default)
 MAX_MODELS = 40000
 MAX_LOOP = 5
-PUB = ("kind", "cells", "k", "den", "emb", "path", "plan", "alloc", "mod", "netlist")     # what a replay file holds
+PUB = ("kind", "cells", "k", "den", "emb", "path", "plan", "proc", "alloc", "mod", "netlist")     # what a replay file holds
 # carrier.factor per embedding (main() uses 10000): chosen so that the integer cell weights neither vanish (tiny)
 # nor overflow TLC's 32-bit integers (big)
 FACTOR = {"int": 10000, "flt": 10000, "half": 10000, "dec": 10000, "third": 10000, "off": 10000,
@@ -53,14 +55,17 @@ FACTOR = {"int": 10000, "flt": 10000, "half": 10000, "dec": 10000, "third": 1000
 
 # ------------------------------------------------------------------------------------------------ real code
 def _solve_once(p):
-    """One rect.solve() call in a pristine process.  p: cells (floats), ifile, factor, k, bound, path."""
+    """One rect.solve() call.  p: cells (floats), ifile, factor, k, bound, path.  Runs in a pristine process
+    (proc = "fresh": one fork per call) or as one of several calls of one process (proc = "same", see _drive)."""
     import tools.rect.rect as R
     import tools.rect.satmanager as SM
     from pysat.solvers import Solver
 
     made = []
+    if not hasattr(SM, "_verif_original"):
+        SM._verif_original = SM.SATManager                  # repeated calls in ONE process subclass the real class
 
-    class Recording(SM.SATManager):
+    class Recording(SM._verif_original):
         def __init__(self):
             super().__init__()
             made.append(self)
@@ -132,6 +137,69 @@ def _embed(case):
     return emb, cells, ifile
 
 
+def _drive(base, start, step, max_calls, proc):
+    """The sequence of solve() calls of one loop -> [(bound, status, output)].  `step(output, state)` gives the next
+    bound or None (it is main()'s loop condition).  proc = "fresh": every call in its own forked process (no
+    history at all: pseudobool's diagram store and everything else pristine).  proc = "same": ONE forked process
+    makes all the calls one after the other -- the way rect.main() really runs its improvement loop, so that
+    process-wide state (pseudobool.memory / mmap, class-level tables of SATManager, ...) carries over from call to
+    call.  The specification has no such state: every call must be judged exactly as a first call is."""
+    def calls(run_one):
+        out, bound, state = [], start, {}
+        for _ in range(max_calls):
+            st, o = run_one(dict(base, bound=bound))
+            out.append((bound, st, o))
+            if st != "ok" or "exc" in o:
+                break
+            bound = step(o, state)
+            if bound is None:
+                break
+        return out
+    if proc == "same":
+        st, res = _fresh_child(lambda _: calls(lambda q: ("ok", _solve_once(q))), None, 900)
+        if st == "harness_error":
+            raise RuntimeError(res)
+        return res if st == "ok" else [(start, st, res)]
+    return calls(lambda q: _fresh_child(_solve_once, q, 300))
+
+
+def _record(emb, obs, case, bound, st, o, check_input=True):
+    """Pull one call's output back to the lattice and append it to obs["events"]; -> False when the loop must stop."""
+    if st == "harness_error":
+        raise RuntimeError(o)
+    if st != "ok":
+        obs["events"].append({"bound": bound, "status": st, "detail": str(o)[:500]})
+        return False
+    try:
+        if "xs" not in obs:
+            obs["xs"] = [emb.back_coord(v) for v in o["xs"]]
+            obs["ys"] = [emb.back_coord(v) for v in o["ys"]]
+            obs["wsel"], obs["wreal"] = o["wsel"], o["wreal"]
+            if check_input:
+                got = [[emb.back_coord(v) for v in c[:4]] for c in o["input"]]
+                if got != [c[:4] for c in case["cells"]]:
+                    raise OffLattice(f"select_box changed the cells: {got[:3]}")
+            else:
+                den, inp = case["den"], []
+                for c in o["input"]:
+                    q = c[4] * den
+                    if abs(q - round(q)) > 1e-9:
+                        raise OffLattice(f"occupancy {c[4]!r}")
+                    inp.append([emb.back_coord(v) for v in c[:4]] + [int(round(q))])
+                obs["inp"] = inp
+        if "exc" in o:
+            obs["events"].append({"bound": bound, "exc": o["exc"]})
+            return False
+        ev = {"bound": bound, "sat": int(len(o["rects"]) > 0), "ret": o["ret"][0],
+              "rects": [[emb.back_coord(v) for v in r] for r in o["rects"]],
+              "models": sorted(o["models"]), "full": o["full"]}
+    except OffLattice as e:
+        obs["events"].append({"bound": bound, "off": str(e)})
+        return False
+    obs["events"].append(ev)
+    return True
+
+
 def run_case(case):
     """-> observation of one lattice case under one embedding: pulled-back coordinate lists, weights and events."""
     if case["kind"] == "alloc":
@@ -139,35 +207,13 @@ def run_case(case):
     emb, cells, ifile = _embed(case)
     base = {"cells": cells, "ifile": ifile, "factor": FACTOR[case["emb"]], "k": case["k"], "path": case["path"]}
     obs = {"events": []}
-    bound = case["plan"][1]
-    for it in range(MAX_LOOP if case["plan"][0] == "loop" else 1):
-        st, o = _fresh_child(_solve_once, dict(base, bound=bound), 300)
-        if st == "harness_error":
-            raise RuntimeError(o)
-        if st != "ok":
-            obs["events"].append({"bound": bound, "status": st, "detail": str(o)[:500]})
+
+    def step(o, _state):             # main(): dif = last, as long as a shape was found
+        return o["ret"][0] if o["rects"] and o["ret"][1] == 1 else None
+    for bound, st, o in _drive(base, case["plan"][1], step, MAX_LOOP if case["plan"][0] == "loop" else 1,
+                               case.get("proc", "fresh")):
+        if not _record(emb, obs, case, bound, st, o):
             break
-        try:
-            if "xs" not in obs:
-                obs["xs"] = [emb.back_coord(v) for v in o["xs"]]
-                obs["ys"] = [emb.back_coord(v) for v in o["ys"]]
-                obs["wsel"], obs["wreal"] = o["wsel"], o["wreal"]
-                got = [[emb.back_coord(v) for v in c[:4]] for c in o["input"]]
-                if got != [c[:4] for c in case["cells"]]:
-                    raise OffLattice(f"select_box changed the cells: {got[:3]}")
-            if "exc" in o:
-                obs["events"].append({"bound": bound, "exc": o["exc"]})
-                break
-            ev = {"bound": bound, "sat": int(len(o["rects"]) > 0), "ret": o["ret"][0],
-                  "rects": [[emb.back_coord(v) for v in r] for r in o["rects"]],
-                  "models": sorted(o["models"]), "full": o["full"]}
-        except OffLattice as e:
-            obs["events"].append({"bound": bound, "off": str(e)})
-            break
-        obs["events"].append(ev)
-        if not ev["sat"] or o["ret"][1] != 1:
-            break
-        bound = o["ret"][0]          # main(): dif = last
     return obs
 
 
@@ -241,42 +287,17 @@ def run_alloc_case(case):
     obs["names"], obs["flags"] = fe["names"], fe["flags"].get(name, [-1, -1])
     base = {"cells": None, "ifile": fe["ifile"], "factor": FACTOR[case["emb"]], "k": case["k"], "path": "select_box",
             "module": name}
-    bound, quality = 1, 0.0
-    for it in range(MAX_ALLOC_LOOP):
-        st, o = _fresh_child(_solve_once, dict(base, bound=bound), 300)
-        if st == "harness_error":
-            raise RuntimeError(o)
-        if st != "ok":
-            obs["events"].append({"bound": bound, "status": st, "detail": str(o)[:500]})
-            break
-        try:
-            if "xs" not in obs:
-                obs["xs"] = [emb.back_coord(v) for v in o["xs"]]
-                obs["ys"] = [emb.back_coord(v) for v in o["ys"]]
-                obs["wsel"], obs["wreal"] = o["wsel"], o["wreal"]
-                inp = []
-                for c in o["input"]:
-                    q = c[4] * den
-                    if abs(q - round(q)) > 1e-9:
-                        raise OffLattice(f"occupancy {c[4]!r}")
-                    inp.append([emb.back_coord(v) for v in c[:4]] + [int(round(q))])
-                obs["inp"] = inp
-            if "exc" in o:
-                obs["events"].append({"bound": bound, "exc": o["exc"]})
-                break
-            ev = {"bound": bound, "sat": int(len(o["rects"]) > 0), "ret": o["ret"][0],
-                  "rects": [[emb.back_coord(v) for v in r] for r in o["rects"]],
-                  "models": sorted(o["models"]), "full": o["full"]}
-        except OffLattice as e:
-            obs["events"].append({"bound": bound, "off": str(e)})
-            break
-        obs["events"].append(ev)
+    def step(o, state):
         # main(): while last[0] > 0 and q1 > quality: quality = q1; boxes = tmpb; dif = last; solve again
-        if not (o["ret"][0] > 0 and o["quality"] > quality):
-            obs["complete"] = int(not ev["sat"])
+        if not (o["ret"][0] > 0 and o["quality"] > state.get("quality", 0.0)):
+            return None
+        state["quality"] = o["quality"]
+        return o["ret"][0]
+    for bound, st, o in _drive(base, 1, step, MAX_ALLOC_LOOP, case.get("proc", "fresh")):
+        if not _record(emb, obs, case, bound, st, o, check_input=False):
             break
-        quality = o["quality"]
-        bound = o["ret"][0]
+    ok = [e for e in obs["events"] if "sat" in e]
+    obs["complete"] = int(len(ok) == len(obs["events"]) and bool(ok) and ok[-1]["sat"] == 0)
     import shutil
     shutil.rmtree(d, ignore_errors=True)
     return obs
@@ -301,7 +322,7 @@ def alloc_cases(gen: list[dict], rng: random.Random) -> list[dict]:
             alloc = [c[:6] + [[-1 if n == 0 else n for n in c[6]]] for c in alloc]
         cases.append({"kind": "alloc", "alloc": alloc, "mod": g["mod"], "cells": g["cells"], "k": g["k"], "den": g["den"],
                       "emb": ALL[i % len(ALL)], "path": "select_box", "plan": ["alloc", 1], "netlist": netlist,
-                      "stog": g["stog"]})
+                      "stog": g["stog"], "proc": "same" if i % 4 in (1, 2) else "fresh"})
     return cases
 
 
@@ -407,7 +428,8 @@ def random_cases(rng: random.Random, n: int, tier: str) -> list[dict]:
                     ["single", best // 2] if mode == 3 else
                     ["single", best + rng.choice([1, 2])] if mode == 4 else
                     ["single", VACUOUS if ncell <= 12 else best - 3])
-        cases.append({"kind": "random", "cells": cells, "k": k, "den": den, "emb": emb, "path": path, "plan": plan})
+        cases.append({"kind": "random", "cells": cells, "k": k, "den": den, "emb": emb, "path": path, "plan": plan,
+                      "proc": rng.choice(["fresh", "same"]) if plan[0] == "loop" else "fresh"})
     return cases
 
 
@@ -444,7 +466,10 @@ def tlc_cases(gen: list[dict], tier: str, rng: random.Random) -> list[dict]:
                 scale = F(FACTOR[en]) * EMBEDDINGS[en].step ** 2 / F(g["fnum"], g["fden"])
                 best = int(g["best"] * scale) if g["best"] >= 0 else -int(-g["best"] * scale)
                 slack = 0 if en in EXACT else 3 * len(g["cells"]) + 1
-                cases.append(dict(base, emb=en, path=path, plan=["loop", best - 1 - slack]))
+                # the loop across the sat/unsat boundary: alternately one fresh process per call, and all calls in
+                # one process (as rect.main() runs it)
+                cases.append(dict(base, emb=en, path=path, plan=["loop", best - 1 - slack],
+                                  proc="same" if si % 2 == 0 else "fresh"))
                 if si % 5 == 0:       # a bound well below the optimum: a large model set cut by the cost constraint
                     cases.append(dict(base, emb=en, path=path, plan=["single", best // 2]))
                 if si % 7 == 0:       # at the optimum
@@ -471,7 +496,8 @@ def _features(case, clause):
         gx = {r[0] - float(r[2]) / 2 for r in rs} | {r[0] + float(r[2]) / 2 for r in rs}
         gy = {r[1] - float(r[3]) / 2 for r in rs} | {r[1] + float(r[3]) / 2 for r in rs}
         shared = int(len(gx) == nx and len(gy) == ny)
-    return {"clause": clause, "embedding": case["emb"], "k": case["k"], "path": case["path"], "origin0": origin0,
+    return {"clause": clause, "embedding": case["emb"], "k": case["k"], "path": case["path"],
+            "process": case.get("proc", "fresh"), "origin0": origin0,
             "integer_size": intsize, "border_literals_match_grid": lit, "shared_corners": shared}
 
 
@@ -506,7 +532,7 @@ def decide(ctx: Ctx, cases: list[dict]):
              "wsel": obs["wsel"], "wreal": obs["wreal"], "events": evs,
              # front end (kind "alloc"): the allocation, the module, the InputProblem select_box produced, and whether
              # the improvement loop ran to its end (last call unsat)
-             "kind": "alloc" if c["kind"] == "alloc" else "plain", "alloc": c.get("alloc", []), "mod": c.get("mod", 0),
+             "proc": c.get("proc", "fresh"), "kind": "alloc" if c["kind"] == "alloc" else "plain", "alloc": c.get("alloc", []), "mod": c.get("mod", 0),
              "inp": obs.get("inp", []), "complete": obs.get("complete", 0),
              "found": int(c["kind"] != "alloc" or (f"M{c.get('mod')}" in obs.get("names", []) and obs.get("flags") == [0, 0]))}
         key = digest(t)
@@ -544,6 +570,9 @@ def decide(ctx: Ctx, cases: list[dict]):
         ctx.sample({"trace": s, "embeddings": sorted({c["emb"] for c in owners[t["id"]]})})
     loops = [(k, t) for k, t in traces.items() if any(c["plan"][0] == "loop" for c in owners[k])]
     ctx.extra["loops"] = len(loops)
+    ctx.extra["loops_same_process"] = sum(1 for k, t in loops if t["proc"] == "same")
+    ctx.extra["calls_after_an_earlier_call_in_the_same_process"] = sum(
+        len(t["events"]) - 1 for t in traces.values() if t["proc"] == "same" and len(t["events"]) > 1)
     ctx.extra["loops_ending_unsat_after_sat"] = sum(1 for k, t in loops if len(t["events"]) > 1 and t["events"][-1]["sat"] == 0)
     ctx.extra["calls_sat"] = sum(e["sat"] for t in traces.values() for e in t["events"])
     ctx.extra["calls_unsat"] = sum(1 - e["sat"] for t in traces.values() for e in t["events"])
@@ -632,6 +661,7 @@ def run(ctx: Ctx) -> int:
     ctx.assumptions += [
         "float dimension sampled by 8 embeddings of the integer lattice (steps 1, 1.0, 1/2, 1/10, 1/3, 1e3, 1e-3, 0.1+37.3), not enumerated",
         "rect.Carrier() cannot be constructed on Linux (Windows DLL): the carrier is a SimpleNamespace with the same fields, filled by the real definecoords(); ifile['Width'/'Height'] = bounding box of the grid, as get_alloc() computes it",
+        "process history: every solve() call is judged as a first call; calls run one per fresh process, and (half of the sat/unsat boundary loops, half of the allocation loops) all calls of a loop in ONE process as rect.main() runs them; longer histories across modules / other tools are C20's subject",
         "minimum-error mode: ratio 2.0; a module to normalise occupies something (all-zero occupancy is outside the quantifier: main() never asks for it and solve() divides by the total occupied area)",
         "grids are given both as corner tuples (input_problem, corners shared exactly) and as centre/size documents through rect_io.select_box (what get_alloc() produces from an allocation file), under every embedding",
         "from_allocation: rect.main() cannot run on Linux (Carrier() loads the greedy seed from a Windows DLL), so its improvement loop is re-implemented in the harness around the real solve(), started at dif = (1, 1) instead of the greedy one-box optimum; allocation documents have non-negative coordinates (FRAME's rectangle reader rejects negative centres)",
